@@ -75,7 +75,7 @@ def judge(scn, log=None):
                           "detail": f"blocked image: {why}",
                           "sig": f"C03.image.blocked_payload_is_vbs_stream|{tag}"})
     rd = pipeline.read_phase(scn, wr.image, log=log,
-                             storage="sim" if scn.get("storage", "sim") == "sim" else "bytesio")
+                             storage=scn.get("read_storage") or ("sim" if scn.get("storage", "sim") == "sim" else "bytesio"))
     if rd.end != "stop" or rd.items != recs:
         n = len(rd.items) if rd.items is not None else 0
         fails.append({"oracle": "C03.reader.returns_exactly_the_records",
@@ -123,6 +123,8 @@ def gen_seeded(seed_i, tier):
     scn["reader"] = "func" if kn.random() < 0.25 else "class"
     if scn["api"] != "func":
         scn["storage"] = kn.choices(["sim", "bytesio", "realfile", "realfile+"], [6, 2, 1, 1])[0]
+    if scn["reader"] == "class" and kn.random() < 0.15:
+        scn["read_storage"] = "pipe"
     return scn
 
 
